@@ -323,6 +323,10 @@ class Module:
             raise AnalysisError(f"{relpath} does not parse: {e}") from e
         from . import canon
 
+        if getattr(repo, "private_map", None):
+            from . import alpha as _alpha
+
+            _alpha.apply_private_map(self.tree, repo.private_map)
         self.tree = canon.canonicalise(self.tree)
         self.alpha = {}
         if os.environ.get("PGV_NO_ALPHA") != "1":
@@ -396,6 +400,23 @@ class Repo:
         self.root = root or DEFAULT_ROOT
         self._all_funcs = []
         self.consulted = set()  # functions the rules of this run asked for / located results in
+        self.private_map = {}
+        if os.environ.get("PGV_NO_ALPHA") != "1":
+            from . import alpha
+
+            cur = {}
+            for rel in PKG_FILES:
+                p = os.path.join(self.root, rel)
+                if os.path.exists(p):
+                    try:
+                        with open(p, encoding="utf-8") as f:
+                            cur[rel] = ast.parse(f.read())
+                    except SyntaxError:
+                        pass
+            try:
+                self.private_map = alpha.private_name_map(cur, alpha.load_reference_trees())
+            except Exception:  # noqa: BLE001 -- normalisation is best effort, never a verdict
+                self.private_map = {}
         self.modules = {}
         self.files = []
         for rel in PKG_FILES:
